@@ -23,6 +23,9 @@ CHECKS["C17"] = dict(engine="enum", technique="bounded-exhaustive enumeration of
 CHECKS["C18"] = dict(engine="enum", technique="bounded-exhaustive enumeration of endpoint descriptions (full product of option menus, all orderings of <=4/5 options, spacings, prefixes, all short strings) against a reference parser and the registry round trip",
              text="Every endpoint of the option-menu product in canonical and reversed order, every ordered selection of <=4 options x spacings, every prefix, every string of <=5/6 symbols over a 12-symbol alphabet, every ':'-joined address list through the real newEndpointManager, and the Endpoint->EndpointF->Endpoint round trip over the field-menu product; fields, defaults, weight normalisation, key equality, no panic.",
              note="Reference parser written from the documented option syntax; behaviours of the flag package outside that grammar (-h=x, base prefixes) are not judged.", ref="§5 C18")
+CHECKS["C09"] = dict(engine="govm", level="fault_enumeration", technique="fault enumeration + stateless model checking: every scripted peer behaviour x deadline source x caller count, each under all schedules within the deviation bound, on the real client call path with virtual time",
+             text="Peer behaviours (answers, silent, late, closes at three points, garbage length, garbage body, refuses, black-holed dial, zero send window) x deadline source (configured, per-call, context) x 1-4 callers; every call must return by deadline (+ dial bound + one wheel tick) on the virtual clock, and after 3 s of quiescence the pending-reply table, queue counters and delivery goroutines must be gone.",
+             note="Exact virtual-time oracle; schedules: default + <=1 deviation from three default policies (2 with pruning in thorough).", ref="§5 C09")
 NOT_YET = {}
 ALL = ["C%02d" % i for i in range(1, 21)]
 
